@@ -26,9 +26,13 @@ struct Item {
     uses_context: bool,
     /// how the context variable is mentioned (plain, method receiver, f-string, argument, comparison)
     ctx_form: u8,
+    /// constants: 0 = i32, 1 = a record with a String and the value (needs a generated clone), 2 = unit
+    const_kind: u8,
 }
 
 struct Graph {
+    /// modules that get a `test` block checking one of their items
+    tests: Vec<(usize, usize)>,
     items: Vec<Item>,
     n_modules: usize,
     /// source order of items per module (declaration order is free)
@@ -51,7 +55,7 @@ fn decode(ctl: &[u8]) -> Graph {
     let n = n_consts + n_fns;
     let mut items: Vec<Item> = Vec::new();
     for i in 0..n {
-        items.push(Item { is_const: i < n_consts, module: c.below(n_modules), refs: vec![], uses_context: false, ctx_form: 0 });
+        items.push(Item { is_const: i < n_consts, module: c.below(n_modules), refs: vec![], uses_context: false, ctx_form: 0, const_kind: 0 });
     }
     // a hidden rank makes most graphs acyclic; a few extra edges ignore it
     let mut rank: Vec<usize> = (0..n).collect();
@@ -70,6 +74,15 @@ fn decode(ctl: &[u8]) -> Graph {
             }
         }
     }
+    for it in items.iter_mut() {
+        if it.is_const {
+            it.const_kind = match c.below(8) {
+                0 | 1 => 1,
+                2 => 2,
+                _ => 0,
+            };
+        }
+    }
     if c.chance(25) {
         let k = c.below(n);
         items[k].uses_context = true;
@@ -80,7 +93,16 @@ fn decode(ctl: &[u8]) -> Graph {
         let j = i + c.below(n - i);
         order.swap(i, j);
     }
-    Graph { items, n_modules, order }
+    let mut tests = Vec::new();
+    for m in 0..n_modules {
+        if c.chance(70) {
+            let here: Vec<usize> = (0..n).filter(|i| items[*i].module == m).collect();
+            if !here.is_empty() {
+                tests.push((m, here[c.below(here.len())]));
+            }
+        }
+    }
+    Graph { tests, items, n_modules, order }
 }
 
 fn reference(g: &Graph, from: usize, to: usize, imports: &mut BTreeSet<String>, c_form: u8) -> String {
@@ -89,29 +111,45 @@ fn reference(g: &Graph, from: usize, to: usize, imports: &mut BTreeSet<String>, 
     let fuel = if g.items[from].is_const { "2" } else { "d - 1" };
     let call = if g.items[to].is_const { n.clone() } else { format!("{n}({fuel})") };
     let same = g.items[from].module == g.items[to].module;
-    if same {
-        return call;
-    }
-    match c_form % 3 {
-        0 => format!("{}.{}", module_path(g.items[to].module), call),
-        1 => {
-            imports.insert(format!("import {}.{};", module_path(g.items[to].module), n));
-            call
-        }
-        _ => {
-            // relative path: from the root into a child, or through super from a child
-            if g.items[from].module == 0 {
-                format!("m{}.{}", g.items[to].module, call)
-            } else if g.items[to].module == 0 {
-                format!("super.{call}")
-            } else {
-                format!("super.m{}.{}", g.items[to].module, call)
+    let path = if same {
+        call
+    } else {
+        match c_form % 3 {
+            0 => format!("{}.{}", module_path(g.items[to].module), call),
+            1 => {
+                imports.insert(format!("import {}.{};", module_path(g.items[to].module), n));
+                call
+            }
+            _ => {
+                // relative path: from the root into a child, or through super from a child
+                if g.items[from].module == 0 {
+                    format!("m{}.{}", g.items[to].module, call)
+                } else if g.items[to].module == 0 {
+                    format!("super.{call}")
+                } else {
+                    format!("super.m{}.{}", g.items[to].module, call)
+                }
             }
         }
+    };
+    // an i32-valued mention of the item
+    if g.items[to].is_const {
+        match g.items[to].const_kind {
+            1 => format!("{path}.n"),
+            2 => format!("({{ {path}; 0 }})"),
+            _ => path,
+        }
+    } else {
+        path
     }
 }
 
 fn render(g: &Graph) -> Vec<(String, String)> {
+    render_with(g, None)
+}
+
+/// `vals`: the model's values, for the test blocks (accepted graphs only)
+fn render_with(g: &Graph, vals: Option<&BTreeMap<usize, i64>>) -> Vec<(String, String)> {
     let mut files: Vec<String> = vec![String::new(); g.n_modules];
     let mut imports: Vec<BTreeSet<String>> = vec![BTreeSet::new(); g.n_modules];
     for &i in &g.order {
@@ -149,12 +187,25 @@ fn render(g: &Graph) -> Vec<(String, String)> {
         let sum = if terms.is_empty() { "0".to_string() } else { terms.join(" + ") };
         let f = &mut files[m];
         if it.is_const {
-            if pre.is_empty() {
-                let _ = writeln!(f, "const {}: i32 = e({}) + {};", name(g, i), i + 1, sum);
-            } else {
-                let _ = writeln!(f, "const {}: i32 = {{ {} e({}) + {} }};", name(g, i), pre.join(" "), i + 1, sum);
+            let conf = if m == 0 { "Conf" } else { "pkg.Conf" };
+            match it.const_kind {
+                1 => {
+                    let _ = writeln!(f, "const {}: {conf} = {{ {} {conf} {{ name: \"c{}\", n: e({}) + {} }} }};", name(g, i), pre.join(" "), i, i + 1, sum);
+                    let _ = writeln!(f, "fn read_{}() -> i32 {{ let c = {}; if c.name == \"c{}\" {{ c.n }} else {{ -1 }} }}", name(g, i), name(g, i), i);
+                }
+                2 => {
+                    let _ = writeln!(f, "const {}: () = {{ {} let t = e({}) + {}; }};", name(g, i), pre.join(" "), i + 1, sum);
+                    let _ = writeln!(f, "fn read_{}() -> i32 {{ {}; 0 }}", name(g, i), name(g, i));
+                }
+                _ => {
+                    if pre.is_empty() {
+                        let _ = writeln!(f, "const {}: i32 = e({}) + {};", name(g, i), i + 1, sum);
+                    } else {
+                        let _ = writeln!(f, "const {}: i32 = {{ {} e({}) + {} }};", name(g, i), pre.join(" "), i + 1, sum);
+                    }
+                    let _ = writeln!(f, "fn read_{}() -> i32 {{ {} }}", name(g, i), name(g, i));
+                }
             }
-            let _ = writeln!(f, "fn read_{}() -> i32 {{ {} }}", name(g, i), name(g, i));
         } else {
             let _ = writeln!(f, "fn {}(d: i32) -> i32 {{ if d <= 0 {{ return {}; }} {} {} + {} }}", name(g, i), 1000 * (i + 1), pre.join(" "), 1000 * (i + 1), sum);
             let _ = writeln!(f, "fn call_{}() -> i32 {{ {}(2) }}", name(g, i), name(g, i));
@@ -167,11 +218,19 @@ fn render(g: &Graph) -> Vec<(String, String)> {
             let _ = writeln!(text, "{imp}");
         }
         if m == 0 {
+            text.push_str("record Conf { name: String, n: i32 }\n");
             text.push_str("fn idf(x: i32) -> i32 { x }\n");
         } else {
             text.push_str("import pkg.idf;\n");
         }
         text.push_str(&files[m]);
+        for (tm, item) in &g.tests {
+            if *tm == m {
+                let want = vals.and_then(|v| v.get(item).copied()).unwrap_or(0);
+                let f = if g.items[*item].is_const { format!("read_{}", name(g, *item)) } else { format!("call_{}", name(g, *item)) };
+                let _ = writeln!(text, "test tm{m} {{ if {f}() == {want} {{ accept }} else {{ reject }} }}");
+            }
+        }
         out.push((if m == 0 { "pkg".to_string() } else { format!("m{m}") }, text));
     }
     out
@@ -217,10 +276,14 @@ fn model(g: &Graph) -> Expect {
         }
         let mut v = base + if g.items[i].uses_context { 7 } else { 0 };
         for (j, _) in &g.items[i].refs {
-            let r = if g.items[*j].is_const { consts[j] } else { fval(g, *j, d - 1, consts) };
+            let r = if g.items[*j].is_const { mention(g, *j, consts) } else { fval(g, *j, d - 1, consts) };
             v = (v + r) as i32 as i64;
         }
         v
+    }
+    /// what an i32-valued mention of constant j is worth (a unit constant is only evaluated)
+    fn mention(g: &Graph, j: usize, consts: &BTreeMap<usize, i64>) -> i64 {
+        if g.items[j].const_kind == 2 { 0 } else { consts[&j] }
     }
     fn cval(g: &Graph, i: usize, consts: &mut BTreeMap<usize, i64>) -> i64 {
         if let Some(v) = consts.get(&i) {
@@ -234,7 +297,7 @@ fn model(g: &Graph) -> Expect {
         }
         let mut v = (i + 1) as i64;
         for (j, _) in &g.items[i].refs {
-            let r = if g.items[*j].is_const { consts[j] } else { fval(g, *j, 2, consts) };
+            let r = if g.items[*j].is_const { mention(g, *j, consts) } else { fval(g, *j, 2, consts) };
             v = (v + r) as i32 as i64;
         }
         consts.insert(i, v);
@@ -248,7 +311,7 @@ fn model(g: &Graph) -> Expect {
     }
     let mut vals: BTreeMap<usize, i64> = BTreeMap::new();
     for i in 0..n {
-        let v = if g.items[i].is_const { consts[&i] } else { fval(g, i, 2, &consts) };
+        let v = if g.items[i].is_const { mention(g, i, &consts) } else { fval(g, i, 2, &consts) };
         vals.insert(i, v);
     }
     Expect::Accept(vals)
@@ -273,9 +336,12 @@ impl WorkerState for W {
     fn run(&mut self, case: &Case, render_flag: bool) -> Outcome {
         let empty: Vec<u8> = Vec::new();
         let g = decode(case.first().unwrap_or(&empty));
-        let files = render(&g);
-        let text: String = files.iter().map(|(n, t)| format!("=== {n}.roto ===\n{t}")).collect();
         let expect = model(&g);
+        let files = match &expect {
+            Expect::Accept(vals) => render_with(&g, Some(vals)),
+            _ => render(&g),
+        };
+        let text: String = files.iter().map(|(n, t)| format!("=== {n}.roto ===\n{t}")).collect();
         let uses_ctx = g.items.iter().any(|i| i.uses_context);
         host::reset(vec![]);
         // compile; the log collected here is what ran *during* compilation
@@ -286,7 +352,7 @@ impl WorkerState for W {
             f
         };
         macro_rules! after_compile {
-            ($res:expr, $call:expr) => {{
+            ($res:expr, $call:expr, $tests:expr) => {{
                 let res = $res;
                 let log = host::take_log();
                 let tags: Vec<i64> = log
@@ -350,6 +416,13 @@ impl WorkerState for W {
                                 return fail("wrong-value", format!("{full}() returned {got}, expected {}", vals[&i]));
                             }
                         }
+                        if !g.tests.is_empty() {
+                            // the test blocks read constants and call functions: they must all accept
+                            if ($tests)(&mut pkg).is_err() {
+                                return fail("test-block-failed", "run_tests() reports a failure although every test block compares an item with the model's value".into());
+                            }
+                            o.classes.push("with-test-blocks".into());
+                        }
                         let later = host::take_log();
                         if !later.is_empty() {
                             return fail("re-evaluated", format!("constant initialisers ran again after compilation: {} events", later.len()));
@@ -373,10 +446,10 @@ impl WorkerState for W {
         }
         if uses_ctx {
             let res = tree(&files).compile(&self.rt_ctx);
-            after_compile!(res, |f: &roto::TypedFunc<roto::Ctx<CCtx>, fn() -> i32>| f.call(&mut CCtx { cx: 7 }));
+            after_compile!(res, |f: &roto::TypedFunc<roto::Ctx<CCtx>, fn() -> i32>| f.call(&mut CCtx { cx: 7 }), |p: &mut roto::Package<roto::Ctx<CCtx>>| p.run_tests(CCtx { cx: 7 }));
         } else {
             let res = tree(&files).compile(&self.rt);
-            after_compile!(res, |f: &roto::TypedFunc<NoCtx, fn() -> i32>| f.call());
+            after_compile!(res, |f: &roto::TypedFunc<NoCtx, fn() -> i32>| f.call(), |p: &mut roto::Package<NoCtx>| p.run_tests());
         }
         o.hash = fnv(text.as_bytes());
         if render_flag {
@@ -395,7 +468,7 @@ impl Prop for C14P {
         "C14"
     }
     fn rule(&self) -> String {
-        "random reference graphs over 2-8 constants and 0-5 functions (mostly acyclic by a hidden rank, a few edges ignore it; sometimes one item mentions a context variable: plainly, as a method receiver, in an f-string, as an argument or in a comparison; functions carry a fuel parameter so that functions calling each other in cycles are part of the domain), references placed as operand, call argument, block-local, match arm, f-string, if-condition or parenthesised term, spread over 1-3 modules (absolute path, import, relative / super path) in random declaration order; every constant initialiser logs a unique tag through e(k). Oracle: if a constant reaches itself or (transitively) reads the context, compile fails with a type error and no tag was logged; otherwise compile succeeds, each tag was logged exactly once during compilation, every constant's dependencies (closed through functions) were logged before it, every constant and function returns the model's value and reading them logs nothing. Non-trivial: >= 3 constants with a dependency through a function or a module boundary, or an injected cycle/context use; distinct by file contents".into()
+        "random reference graphs over 2-8 constants and 0-5 functions (mostly acyclic by a hidden rank, a few edges ignore it; sometimes one item mentions a context variable: plainly, as a method receiver, in an f-string, as an argument or in a comparison; functions carry a fuel parameter so that functions calling each other in cycles are part of the domain), references placed as operand, call argument, block-local, match arm, f-string, if-condition or parenthesised term, spread over 1-3 modules (absolute path, import, relative / super path) in random declaration order; constants are i32 values, records with a String (read through a field) or unit; some modules carry a `test` block comparing an item with the model's value; every constant initialiser logs a unique tag through e(k). Oracle: if a constant reaches itself or (transitively) reads the context, compile fails with a type error and no tag was logged; otherwise compile succeeds, each tag was logged exactly once during compilation, every constant's dependencies (closed through functions) were logged before it, every constant and function returns the model's value and reading them logs nothing. Non-trivial: >= 3 constants with a dependency through a function or a module boundary, or an injected cycle/context use; distinct by file contents".into()
     }
     fn assumptions(&self) -> Vec<String> {
         vec![
